@@ -10,11 +10,19 @@ package types
 // SplitLockByPowerIndexKey is byte-slicing code over that layout; its result is named by two abstract
 // functions, and the one layout fact the lock check relies on (big-endian power => byte order of keys
 // under one address follows numeric power order) is stated as an axiom (trusted, key-layout).
-//@ spec idxPower(k Bz) Int uninterpreted
+// the power field: the 8 bytes after the address, read as an UNSIGNED big-endian number (locks of 2^63 and more exist:
+// SetLockedPower accepts any uint64)
+//@ spec idxPower(k Bz) Int = u64of(bzslice(k, 2 + k[1], 2 + k[1] + 8))
 //@ spec idxAddr(k Bz) Addr uninterpreted
+// (key-length assertions of the SDK's kv package panic on shorter keys: a precondition here)
+//@ extern github.com/cosmos/cosmos-sdk/types/kv.AssertKeyAtLeastLength(bz, length) ()
+//@ requires len(bz) >= length
+// layout fact (trusted, key-layout): every key under a staker's by-power prefix was written by LockByPowerIndexKey, so
+// it carries the address it announces and the 8 power bytes
+//@ axiom idxLayout: forall k Bz, p Addr :: hasprefix(k, LocksByPowerIndexKey(p)) ==> len(k) >= 2 && len(k) >= 2 + k[1] + 8
 //@ func SplitLockByPowerIndexKey
-//@ trusted
-//@ ensures power == idxPower(key) && addr == idxAddr(key)
+//@ requires len(key) >= 2 && len(key) >= 2 + key[1] + 8
+//@ ensures power == idxPower(key)
 //@ axiom idxOrder: forall a Bz, b Bz, p Addr :: hasprefix(a, LocksByPowerIndexKey(p)) && hasprefix(b, LocksByPowerIndexKey(p)) && bzlt(a, b) ==> idxPower(a) <= idxPower(b)
 
 // ---- assumed contracts of the keepers the restake module depends on ------------------------------------
